@@ -274,6 +274,7 @@ func propC02(w *World, r *Report) {
 	}
 	RunAllocBound(w, r, br, fns)
 	RunNarrowArith(w, r, fns)
+	RunRangeOrder(w, r, "/opentype/coverage", "/opentype/classdef", "/cff", "/cmap")
 	RunLoopTerm(w, r, br, fns)
 	RunReencode(w, r)
 }
